@@ -29,9 +29,10 @@ type Svc struct {
 	Seams      bool                       // park at a scheduler seam before answering
 	now        func() time.Duration
 	Dead       bool
-	IgnoreCtx  bool // answer from the script even when the caller's context has ended
-	CtxLikeErr bool // scripted failures look like a timeout that is not the caller's
-	MaxReqs    int  // >0: panic when more requests than this arrive (runaway guard)
+	Release    chan struct{} // closed at teardown: hanging requests return
+	IgnoreCtx  bool          // answer from the script even when the caller's context has ended
+	CtxLikeErr bool          // scripted failures look like a timeout that is not the caller's
+	MaxReqs    int           // >0: panic when more requests than this arrive (runaway guard)
 	// Served records every value ever handed out, per name.
 	Served map[string]map[string]bool
 	// History of activations, for "active at some instant during the poll".
@@ -62,7 +63,7 @@ type Req struct {
 }
 
 func NewSvc() *Svc {
-	return &Svc{S: map[string]*svcSecret{}, fail: map[string]int{}, inflt: map[string]int{}, MaxInfl: map[string]int{}, Served: map[string]map[string]bool{}, Act: map[string][]Activation{}, now: func() time.Duration { return 0 }}
+	return &Svc{Release: make(chan struct{}), S: map[string]*svcSecret{}, fail: map[string]int{}, inflt: map[string]int{}, MaxInfl: map[string]int{}, Served: map[string]map[string]bool{}, Act: map[string][]Activation{}, now: func() time.Duration { return 0 }}
 }
 
 func Value(name string, ver uint32) string { return fmt.Sprintf("%s#v%d", name, ver) }
@@ -197,9 +198,15 @@ func (s *Svc) answer(ctx context.Context, name string, cond bool, old uint32) (*
 		}
 		return nil, errSvc
 	case "hang":
-		<-ctx.Done()
-		done("hang-ctx")
-		return nil, ctx.Err()
+		select {
+		case <-ctx.Done():
+			done("hang-ctx")
+			return nil, ctx.Err()
+		case <-s.Release:
+			// teardown: the harness lets every hanging request go so that all goroutines can finish
+			done("hang-released")
+			return nil, errSvc
+		}
 	}
 	if s.Seams {
 		sched.Seam("svc.answer(" + name + ")")
